@@ -26,7 +26,7 @@ import (
 	"verif/harness/internal/rng"
 )
 
-var stems = []string{"Add", "Sub", "X", "Loop1", "x_y", "A9", "Über", "_u", "λ2", "Foo"}
+var stems = []string{"Add", "Sub", "X", "Loop1", "x_y", "A9", "Über", "_u", "λ2", "Foo", "Recover_failing_disk", "_failing_test2", "failing_", "testtest", "Gone_ok"}
 
 type fn struct {
 	name    string
@@ -100,6 +100,13 @@ func genFile(r *rng.R, used map[string]bool, class string) (string, []fn) {
 			used[vn] = true
 			fmt.Fprintf(&sb, "var %s = func() bool {\n\treturn true\n}\n\nconst c%s = `not at column 0:\n  func testIndented() bool`\n\n", vn, vn)
 		default:
+			if class != "kf-rawstring" && r.Intn(3) == 0 {
+				// a long comment line that quotes a function header far from its start (at a
+				// multiple of 4096 bytes: a reader with a bounded line buffer must not see a header there)
+				k := 1 + r.Intn(2)
+				fmt.Fprintf(&sb, "// %sfunc testQuoted%d() bool { the old header of a function that is gone\n\n", strings.Repeat("x", 4096*k-3), len(used))
+				used[fmt.Sprintf("long%d", len(used))] = true
+			}
 			if class == "kf-rawstring" {
 				vn := "raw" + fmt.Sprint(len(used))
 				used[vn] = true
@@ -175,8 +182,22 @@ func main() {
 		}
 		sort.Slice(files, func(i, j int) bool { return files[i].name < files[j].name })
 		fmt.Fprintf(w, "D %s\n", class)
+		linkDir := ""
 		for _, f := range files {
-			if err := os.WriteFile(filepath.Join(dir, f.name), []byte(f.src), 0o644); err != nil {
+			if !(*modroot != "" && d < *vet) && strings.HasSuffix(f.name, ".go") && r.Intn(6) == 0 {
+				// a source file that is a symbolic link (the Go toolchain compiles it like any other)
+				if linkDir == "" {
+					linkDir, _ = os.MkdirTemp("", "verif-tgdrv-links-")
+					defer os.RemoveAll(linkDir)
+				}
+				target := filepath.Join(linkDir, f.name)
+				if err := os.WriteFile(target, []byte(f.src), 0o644); err != nil {
+					panic(err)
+				}
+				if err := os.Symlink(target, filepath.Join(dir, f.name)); err != nil {
+					panic(err)
+				}
+			} else if err := os.WriteFile(filepath.Join(dir, f.name), []byte(f.src), 0o644); err != nil {
 				panic(err)
 			}
 			fmt.Fprintf(w, "F %s\n", hx(f.name))
@@ -199,7 +220,24 @@ func main() {
 				}
 			}
 		}
+		useOut := r.Intn(3) == 0
 		run := func(mode string) string {
+			if useOut {
+				// -out names a file left by an earlier, longer generation
+				outFile := filepath.Join(os.TempDir(), fmt.Sprintf("verif-tgdrv-out-%d-%d%s", os.Getpid(), d, mode))
+				defer os.Remove(outFile)
+				first, _ := exec.Command(*testgen, mode, dir).Output()
+				tail := "\n// stale tail of an earlier generation\nfunc (suite *GoTestSuite) TestGone() {\n}\n"
+				if mode == "-coq" {
+					tail = "\n(* stale tail of an earlier generation *)\nExample testGone_ok : testGone #() ~~> #true := t.\n"
+				}
+				os.WriteFile(outFile, append(first, []byte(tail)...), 0o644)
+				if err := exec.Command(*testgen, mode, "-out", outFile, dir).Run(); err != nil {
+					return "ERROR " + err.Error()
+				}
+				b, _ := os.ReadFile(outFile)
+				return string(b)
+			}
 			out, err := exec.Command(*testgen, mode, dir).Output()
 			if err != nil {
 				return "ERROR " + err.Error()
